@@ -44,6 +44,11 @@ def run(ctx: Ctx):
     from .common import axis_role_lint
 
     axis_role_lint(ctx, "axis-roles", entries=("zscores", "pvals", "residual_test_stats"))
+    # a subtotal cell's OWN count and bases are those of the categories it names, each once: the residual of an inserted
+    # row is formed from SumSubtotals blocks, which index with these positions
+    from .common import subtotal_terms_once
+
+    subtotal_terms_once(ctx, "subtotal-cells.terms-once")
 
 
 def formula(ctx: Ctx):
